@@ -354,7 +354,7 @@ def _ctc(draw, names, feats):
     return _cap_xor(draw(S.expr_of_depth(names, logic.LOGICAL, draw(st.integers(1, 3)))), [2])
 
 
-METRIC_PROFILE = S.Profile(S.ident_names(), single=("mandatory", "optional"),
+METRIC_PROFILE = S.Profile(S.ident_or_dict_names(), single=("mandatory", "optional"),
                            group=("alternative", "or", "mutex", "card"), layout="free", ctc_max=5, ctc_expr=_ctc)
 
 
